@@ -203,7 +203,7 @@ func siteOf(p *Prog, in ssa.Instruction) (string, string) {
 // Attach wires the recorder into a machine.
 func (r *GraphRec) Attach(m *Machine) {
 	m.OnVisit = func(st *State, b *ssa.BasicBlock) int {
-		n := r.G.NewNode(fmt.Sprintf("%s.b%d", b.Parent().Name(), b.Index))
+		n := r.G.NewNode(fmt.Sprintf("%s.b%d", fnName(b.Parent()), b.Index))
 		r.G.AddEdge(r.node(st), n, nil)
 		r.setNode(st, n)
 		return n
